@@ -9,7 +9,9 @@
   late is a TIMEOUT for the circuit and still nil for the caller), the circuit-open / limit error for a refused call.
   Before all that Execute reads the kill switch: `Disabled` → the run function is called directly, as if there were no
   circuit (no admission, no gauge, no events, no fallback; its error or panic goes straight to the caller).
-  The fallback's settings (limit, Disabled) and the kill switch are static here.
+  Operators (`SetConfigThreadSafe` as far as this model goes) store, at arbitrary moments and in the order of
+  `atomicCircuitConfig.reset`: ForcedClosed, ForceOpen, the kill switch Disabled, the run limit, Fallback.Disabled, the
+  fallback limit — so every setting the model reads is LIVE.
 -/
 import CircuitModel.Conc.RunDyn
 namespace CM.Conc.Exec
@@ -51,9 +53,19 @@ inductive Pc where
   | done (o : Out)
   deriving Repr, DecidableEq
 
+/-- what one reconfiguration installs -/
+structure OpCfg where
+  fo : Bool := false
+  fc : Bool := false
+  dis : Bool := false
+  limit : Int := 10
+  fbDis : Bool := false
+  fbLimit : Int := 10
+  deriving Repr, DecidableEq
+
 inductive Local where
   | call (l : Run.Local) (fb : FbScript) (pc : Pc)
-  | op (fo fc : Bool) (limit : Int) (stage : Nat)
+  | op (cfg : OpCfg) (stage : Nat)     -- stages 0..5: the six stores, in reset's order; 6 = returned
   deriving Repr, DecidableEq
 
 structure Shared where
@@ -76,8 +88,13 @@ def runBad (sc : Run.Script) : Run.Res → Bool
   | _ => false
 
 def step (tid : Nat) (s : Shared) : Local → Option (Shared × Local)
-  | .op fo fc m k => (RunDyn.step tid s.r (.op fo fc m k)).bind fun p =>
-      match p.2 with | .op a b c d => some ({ s with r := p.1 }, .op a b c d) | _ => none
+  | .op cfg 0 => some ({ s with r := { s.r with t := { s.r.t with forcedClosed := cfg.fc } } }, .op cfg 1)
+  | .op cfg 1 => some ({ s with r := { s.r with t := { s.r.t with forceOpen := cfg.fo } } }, .op cfg 2)
+  | .op cfg 2 => some ({ s with disabled := cfg.dis }, .op cfg 3)
+  | .op cfg 3 => some ({ s with r := { s.r with limit := cfg.limit } }, .op cfg 4)
+  | .op cfg 4 => some ({ s with fbDisabled := cfg.fbDis }, .op cfg 5)
+  | .op cfg 5 => some ({ s with fbLimit := cfg.fbLimit }, .op cfg 6)
+  | .op _ _ => none
   | .call l fb pc =>
     let sc : Run.Script := match l.job with | .call sc => sc | _ => {}
     let goto (pc : Pc) : Option (Shared × Local) := some (s, .call l fb pc)
@@ -112,14 +129,14 @@ def sys : Sys Shared Local := { step := step }
 inductive Job where
   | exec (sc : Run.Script) (fb : FbScript)
   | open | close
-  | reconfigure (fo fc : Bool) (limit : Int)
+  | reconfigure (cfg : OpCfg)
   deriving Repr, DecidableEq
 
 def startLocal : Job → Local
   | .exec sc fb => .call { job := .call sc, pc := Run.startPc (.call sc) } fb .gate
   | .open => .call { job := .open, pc := Run.startPc .open } {} .running
   | .close => .call { job := .close, pc := Run.startPc .close } {} .running
-  | .reconfigure fo fc m => .op fo fc m 0
+  | .reconfigure cfg => .op cfg 0
 
 def init (forceOpen forcedClosed isOpen : Bool) (limit fbLimit : Int) (fbDisabled : Bool) (jobs : List Job) (disabled : Bool := false) : Config Shared Local :=
   { shared := { r := { t := { forceOpen := forceOpen, forcedClosed := forcedClosed, isOpen := isOpen }, limit := limit },
@@ -127,7 +144,7 @@ def init (forceOpen forcedClosed isOpen : Bool) (limit fbLimit : Int) (fbDisable
     locals := jobs.map startLocal }
 
 def allDone (c : Config Shared Local) : Bool :=
-  c.locals.all fun l => match l with | .call _ _ (.done _) => true | .call .. => false | .op _ _ _ k => decide (3 ≤ k)
+  c.locals.all fun l => match l with | .call _ _ (.done _) => true | .call .. => false | .op _ k => decide (6 ≤ k)
 
 def outOf (c : Config Shared Local) (i : Nat) : Option Out :=
   match c.locals[i]? with | some (.call _ _ (.done o)) => some o | _ => none
